@@ -406,9 +406,20 @@ def model_write(m, op, keys, vals, popped=None):
         raise ValueError(k)
 
 
-def observe(a):
-    """what a reader sees through the public interface: ('ok', dict(items)) or ('exc', type name, text)"""
+def observe(a, view='items', keys=None):
+    """what a reader sees through the public interface: ('ok', dict) or ('exc', type name, text).
+    view 'items': dict(a.items()); 'keys': only the key listing ({k: None}); 'get': a.get(k) for every pool key, WITHOUT listing the archive"""
     try:
-        return ('ok', dict(a.items()))
+        if view == 'items':
+            return ('ok', dict(a.items()))
+        if view == 'keys':
+            return ('ok', dict((k, None) for k in a.keys()))
+        missing = object()
+        out = {}
+        for k in keys:
+            v = a.get(k, missing)
+            if v is not missing:
+                out[k] = v
+        return ('ok', out)
     except BaseException as e:
         return ('exc', type(e).__name__, repr(e))
